@@ -250,8 +250,12 @@ def evaluate(case):
                 else:
                     fails += _dedup(_compare(r, exp, all_rows, columns, B + ['projection'], ctx + f' columns={columns}'), seen)
                 ixn = exp['index_name']
-                if case.get('columns_with_index') is not None and ixn is not None and ixn not in columns and n > 0:
+                import pandas as pd
+                if case.get('columns_with_index') is not None and ixn is not None and ixn not in columns and n > 0 \
+                        and not isinstance(gdf.index, pd.RangeIndex):
                     # the projection may also name the stored index column itself: it is still "those columns plus the index"
+                    # (a RangeIndex - which pandas also makes of any two integers - is stored as metadata, not as a column,
+                    # so there is no such column to name; asking for it raises in pandas itself)
                     req = list(columns)
                     req.insert(case['columns_with_index'] % (len(req) + 1), ixn)
                     r = lib(B + ['read_parquet', 'columns+index'], read_parquet, path, columns=req)
